@@ -1,11 +1,17 @@
-(* C03 — the RVB move: the algebra of its acceptance probability.  The region search and the graph
-   rewrite of rvb.rs are NOT transcribed (see DESIGN.md); the theorems below are about the abstract
-   move "flip a region, re-draw the n rotatable boundary operators among the boundary bonds in
-   proportion to their weight after the flip, accept with min(1,(W_after/W_before)^n)". The
-   implementation is tied to it by the exact-diagonalisation oracle and the world-line / legality /
-   bookkeeping oracles run after every RVB sweep. *)
-From Coq Require Import List QArith ZArith NArith Bool Arith.
-From QmcV Require Import Model.Prog Model.Sse Proofs.ProgLemmas Proofs.RvbAbstract Proofs.SseWeight.
+(* C03 — the RVB move.
+   (a) rvb.rs, util/bondcontainer.rs and util/vec_help.rs are transcribed in Model/Rvb.v and replayed on the
+       raw RNG words of every single_rvb_sweep / RVB-enabled timestep of the correspondence runs.
+   (b) Theorems about the transcription: the weighted boundary set is a finite map whose draws have the
+       law w_i / total (zero weight: never), toggle positions keep odd multiplicities only, region sizes
+       follow 2^-k, and for EVERY sequence of draws a sweep keeps each operator at its slot (count, lengths).
+   (c) Theorems about the abstract move (flip a region, re-draw the n rotatable boundary operators among
+       the boundary bonds in proportion to their weight after the flip, accept with
+       min(1,(W_after/W_before)^n)): this acceptance balances the configuration weight.
+   That the transcribed region search realises the abstract move is NOT proved; convergence is decided by
+   the exact-diagonalisation oracle. *)
+From Coq Require Import List QArith ZArith NArith Bool Arith Permutation.
+From QmcV Require Import Model.Prog Model.Sse Model.Ham Model.Rvb Proofs.ProgLemmas Proofs.RvbAbstract Proofs.SseWeight
+     Proofs.ProgSafety Proofs.RvbProofs.
 Import ListNotations.
 Open Scope Q_scope.
 
@@ -38,4 +44,84 @@ Print Assumptions C03_composes.
 
 Example C03_ex : let wb := [2; 2; 4] in let wa := [4; 1; 1] in
   qprod wb * rot_prob wa 6 * ratio_prob (qpow 6 3) (qpow 8 3) == qprod wa * rot_prob wb 8 * ratio_prob (qpow 8 3) (qpow 6 3).
+Proof. vm_compute. reflexivity. Qed.
+
+(* ---------------- the transcribed implementation ---------------- *)
+Theorem C03_bondcontainer_insert_keeps_keys_distinct : forall (T : Type) (idx : T -> nat) (c : bc T) t w,
+  NoDup (keys_of T idx c) -> NoDup (keys_of T idx (bc_insert idx c t w)).
+Proof. exact bc_insert_nodup. Qed.
+Print Assumptions C03_bondcontainer_insert_keeps_keys_distinct.
+
+Theorem C03_bondcontainer_insert_lookup : forall (T : Type) (idx : T -> nat) (c : bc T) t w k,
+  bc_contains idx (bc_insert idx c t w) k = Nat.eqb k (idx t) || bc_contains idx c k.
+Proof. exact bc_insert_contains. Qed.
+Print Assumptions C03_bondcontainer_insert_lookup.
+
+Theorem C03_bondcontainer_remove : forall (T : Type) (idx : T -> nat) (c : bc T) k,
+  NoDup (keys_of T idx c) ->
+  NoDup (keys_of T idx (bc_remove idx c k))
+  /\ (forall k', In k' (keys_of T idx (bc_remove idx c k)) <-> In k' (keys_of T idx c) /\ k' <> k).
+Proof. exact bc_remove_spec. Qed.
+Print Assumptions C03_bondcontainer_remove.
+
+Theorem C03_bondcontainer_swap_remove_is_permutation : forall (T : Type) (c : bc T) i x,
+  nth_error c i = Some x -> Permutation (x :: bc_remove_index c i) c.
+Proof. exact bc_remove_index_perm. Qed.
+Print Assumptions C03_bondcontainer_swap_remove_is_permutation.
+
+Theorem C03_bondcontainer_total_after_remove : forall (T : Type) (c : bc T) i t w,
+  nth_error c i = Some (t, w) -> bc_total (bc_remove_index c i) == bc_total c - w.
+Proof. exact bc_remove_index_total. Qed.
+Print Assumptions C03_bondcontainer_total_after_remove.
+
+Theorem C03_draw_probability : forall (ws : list Q) (i : nat), (i < length ws)%nat ->
+  mass (fun j => Nat.eqb j i) (denote (Choose ws (fun j => Ret j))) == nth i ws 0 / Qsum ws.
+Proof. exact bc_draw_law. Qed.
+Print Assumptions C03_draw_probability.
+
+Theorem C03_zero_weight_bond_never_drawn : forall (ws : list Q) (i : nat), nth i ws 0 == 0 ->
+  mass (fun j => Nat.eqb j i) (denote (Choose ws (fun j => Ret j))) == 0.
+Proof. exact bc_zero_weight_never_drawn. Qed.
+Print Assumptions C03_zero_weight_bond_never_drawn.
+
+Theorem C03_toggle_positions_odd_multiplicity : forall n l x, (length l <= n)%nat -> sorted_le l ->
+  count_occ Nat.eq_dec (remove_doubles l) x = (count_occ Nat.eq_dec l x mod 2)%nat.
+Proof. exact remove_doubles_parity. Qed.
+Print Assumptions C03_toggle_positions_odd_multiplicity.
+
+Theorem C03_region_size_law : forall k, (k < 64)%nat ->
+  mass (fun n => N.eqb n (N.of_nat k)) (denote (TrailOnes (fun n => Ret n))) == 1 / qpow2 (S k).
+Proof. exact trail_ones_law. Qed.
+Print Assumptions C03_region_size_law.
+
+Theorem C03_region_size_is_distribution : total (denote (TrailOnes (fun n => Ret n))) == 1.
+Proof. exact trail_ones_is_distribution. Qed.
+Print Assumptions C03_region_size_is_distribution.
+
+Theorem C03_sweep_keeps_operator_slots : forall g updates st sl,
+  all_out (keeps_shape_n st sl) (rvb_update g updates st sl).
+Proof. exact rvb_update_keeps_shape. Qed.
+Print Assumptions C03_sweep_keeps_operator_slots.
+
+Theorem C03_sweep_count_unchanged : forall g updates st sl p st' sl' succ,
+  In (p, Some (st', sl', succ)) (denote (single_rvb_sweep g updates st sl)) ->
+  count_ops sl' = count_ops sl /\ length sl' = length sl /\ length st' = length st.
+Proof. exact rvb_sweep_count_unchanged. Qed.
+Print Assumptions C03_sweep_count_unchanged.
+
+Theorem C03_sweep_count_unchanged_on_tape : forall g updates st sl tape st' sl' succ rest,
+  run_tape (single_rvb_sweep g updates st sl) tape = RDone (Some (st', sl', succ)) rest ->
+  count_ops sl' = count_ops sl /\ length sl' = length sl /\ length st' = length st.
+Proof. exact rvb_sweep_count_unchanged_on_tape. Qed.
+Print Assumptions C03_sweep_count_unchanged_on_tape.
+
+(* non-vacuity: a sweep recorded from the real sampler (two spins, opposite-sign double edge, h = 1):
+   the model accepts the region and rotates the diagonal operator onto the other edge *)
+Example C03_ex_model_runs :
+  let g := mkIsing [(0, 1, Qmake (-1) 2); (1, 0, Qmake 1 4)]%nat (Qmake 1 2) (Qmake 1 1) 2%nat in
+  run_tape (single_rvb_sweep g (Some 1%nat) [true; true]
+              [None; Some (mkOp [0; 1]%nat 0%nat [true; true] [true; true] false)])
+           [W64 1655999432815776198; W64 11776152845406309638; W64 3409793048657096142;
+            W64 16242415005418283830; W64 7015378918463526744; W64 5530627976877952907]
+  = RDone (Some ([false; true], [None; Some (mkOp [1; 0]%nat 1%nat [true; false] [true; false] false)], 1%nat)) [].
 Proof. vm_compute. reflexivity. Qed.
